@@ -9,6 +9,9 @@ mod config;
 mod events;
 #[cfg(test)]
 mod tests;
+#[cfg(p2panda_p2panda_verif)]
+#[doc(hidden)]
+pub mod verif;
 
 pub use api::{Gossip, GossipError, GossipHandle, GossipPublishError, GossipSubscription};
 pub use builder::Builder;
